@@ -17,4 +17,5 @@ INVARIANT PowLaw
 INVARIANT SubValueLaw
 INVARIANT SubGraphLaw
 INVARIANT RawLaw
+INVARIANT NestedLaw
 CHECK_DEADLOCK FALSE
